@@ -210,6 +210,8 @@ func H03IntFast() {
 var h03IterTemplates = []string{
 	"922337203685477580?", "+922337203685477580?", "-922337203685477580?", "0922337203685477580?",
 	"1844674407370955161?", "92233720368547758?7", "-92233720368547758?8", "9_223372036854775807?",
+	// well-placed underscores are no part of a base-10 count, however long it is
+	"1_000_000_000_000_00?", "1_0000000000000000?", "100000000000000000_?", "1_000_00?",
 }
 
 // H03ItersTemplate: iteration counts around the int64 boundary, digit holes
